@@ -124,6 +124,14 @@ func init() {
 				c.runBFS(fmt.Sprintf("bfs-T%d-age%s", T, oa), sys, depth, nil)
 			}
 		}
+		for _, oa := range []string{"", "1", "2"} {
+			cfg := env.BasicConfig(config.CacheConfig{})
+			sys := &keySys{cfg: cfg, cfgKey: "basic", P: 300, originAge: oa, sMaxAge: true, events: []keyEvent{
+				{Name: fmt.Sprintf("GET(origin:s-maxage=3,max-age=1000,age=%q)", oa), Kind: "get", Ans: "cacheable", T: 3},
+				{Name: "tick+1", Kind: "tick", D: 1},
+			}}
+			c.runBFS("bfs-smaxage3-age"+oa, sys, 10, nil)
+		}
 		for _, kind := range []string{"ttl", "lazy"} {
 			cfg := env.BasicConfig(config.CacheConfig{Store: "fault://c04" + kind})
 			sys := &keySys{cfg: cfg, cfgKey: "c04store" + kind, P: 300, store: kind, events: []keyEvent{
